@@ -218,7 +218,14 @@ pub fn run(tier: Tier) -> Report {
             let _g = crate::engine::watch(|| format!("C05 heads {}..", ci * 16));
             for (i, (h, nf, allp)) in chunk.iter().enumerate() {
                 let ord = (ci * 16 + i) as u64;
+                let before = rep.violations.len();
                 check_head(h, *nf, &b, ord, &mut rep, *allp);
+                if rep.violations.len() == before && ord % 293 == 0 {
+                    for front in FRONTS {
+                        crate::engine::validate_case(&mut rep, replay, json!({"head": hex(h), "nfields": nf, "front": front, "p": h.len() / 2, "tail": ""}));
+                        crate::engine::validate_case(&mut rep, replay, json!({"head": hex(h), "nfields": nf, "front": front, "p": h.len(), "tail": hex(b"X")}));
+                    }
+                }
                 if ord % 1500 == 7 {
                     rep.sample(json!({"head": show(h), "prefixes_checked": h.len() + 1, "entry_points": FRONTS}));
                 }
